@@ -11,9 +11,10 @@ NAME_POOL = [
 ]
 SENSOR_POOL = ["gps", "imu", "baro", "alt2", "cam", "lidar_1", "radar", "sonar"]
 READING_POOL = ["r", "z", "range", "angle", "doppler", "p_1", "p_10", "p_2", "Hd", "hd", "_m", "bearing", "u0", "U0"]
-# unary functions both back ends support; the reciprocal ones (sec, csc, cot, sech, csch, coth) go through the
-# lambdify namespace / ccode rewriting rather than a direct numpy / <cmath> name
-FNS = ["sin", "cos", "exp", "sin", "cos", "tanh", "sinh", "cosh", "sec", "csc", "cot", "sech", "csch", "coth"]
+# unary functions drawn for random definitions.  The hyperbolic / reciprocal ones (tanh ... coth) are exercised by the
+# fixed function_coverage_definitions only: inside randomly nested expressions they make sympy's simplify (called by
+# formak after common-subexpression elimination) take many minutes, which is compile time, not a property
+FNS = ["sin", "cos", "exp"]
 
 
 def num(p, q=1):
@@ -77,9 +78,11 @@ def rnd_expr(rng, vars_, depth, rational=True, pool=None):
 
 
 def gen_definition(rng, *, rational=True, max_states=5, max_controls=3, max_cal=3, max_sensors=3, max_readings=4,
-                   min_sensors=0, force_control=None, force_cal=None, singular=False, int_cal=False, force_fold=False):
+                   min_sensors=0, force_control=None, force_cal=None, singular=False, int_cal=False, force_fold=False, force_bilinear=False):
     names = rng.sample(NAME_POOL, len(NAME_POOL))
-    ns = rng.randint(1, max_states)
+    ns = rng.randint(2 if force_bilinear else 1, max_states)
+    if force_bilinear:
+        force_control = True
     nu = rng.randint(0, max_controls) if force_control is None else (rng.randint(1, max(1, max_controls)) if force_control else 0)
     nc = rng.randint(0, max_cal) if force_cal is None else (rng.randint(1, max(1, max_cal)) if force_cal else 0)
     state, control, cal = names[:ns], names[ns:ns + nu], names[ns + nu:ns + nu + nc]
@@ -91,7 +94,7 @@ def gen_definition(rng, *, rational=True, max_states=5, max_controls=3, max_cal=
             sm[s] = add(var(s), mul(var("dt"), rnd_expr(rng, allv, 2, rational, pool)))
         else:
             sm[s] = rnd_expr(rng, allv, 3, rational, pool)
-    bilinear = nu >= 1 and ns >= 2 and not singular and not force_fold and rng.random() < 0.15
+    bilinear = nu >= 1 and ns >= 2 and not singular and not force_fold and (force_bilinear or rng.random() < 0.15)
     if bilinear:
         # bilinear dynamics: the process Jacobian contains no state symbol but depends on the control (and dt), so it
         # must be re-evaluated when only the control changes between two steps of one filter
@@ -169,16 +172,16 @@ def signed_zero_points():
 
 
 def assumption_twin_definition():
-    """r' = a sqrt(1 + b^2 / a^2): equal to sqrt(a^2 + b^2) only for positive a"""
-    r = mul(var("a"), fn("sqrt", add(num(1), mul(powi(var("b"), 2), powi(var("a"), -2)))))
-    sm = {"r": r, "a": add(var("a"), mul(var("dt"), var("u"))), "b": var("b"),
-          "q": mul(var("b"), fn("sqrt", add(num(1), mul(powi(var("a"), 2), powi(var("b"), -2)))))}
-    return {"dt": "dt", "state": ["r", "a", "b", "q"], "control": ["u"], "calibration": [], "state_model": sm,
-            "sensors": {}, "process_noise": {"u": 0.25}, "sensor_noise": {}, "calibration_map": {}, "rational": False}
+    """r' = a sqrt(1 + (b / a)^2) (scaled hypotenuse): equal to sqrt(a^2 + b^2) only for positive a.  Kept minimal: further
+    statements sharing a^2 or b^2 change what the common-subexpression pass hands to simplify."""
+    r = mul(var("a"), fn("sqrt", add(num(1), powi(mul(var("b"), powi(var("a"), -1)), 2))))
+    sm = {"r": r, "a": add(var("a"), mul(var("dt"), var("b"))), "b": var("b")}
+    return {"dt": "dt", "state": ["r", "a", "b"], "control": [], "calibration": [], "state_model": sm,
+            "sensors": {}, "process_noise": {}, "sensor_noise": {}, "calibration_map": {}, "rational": False}
 
 
 def assumption_twin_points():
-    return [{"dt": 0.125, "state": {"r": 0.0, "a": a, "b": b, "q": 0.0}, "control": {"u": 0.5}} for a, b in ((-3.0, 4.0), (3.0, -4.0), (-0.75, -1.0), (1.5, 2.0))]
+    return [{"dt": 0.125, "state": {"r": 0.0, "a": a, "b": b}, "control": {}} for a, b in ((-3.0, 4.0), (3.0, -4.0), (-0.75, -1.0), (1.5, 2.0))]
 
 
 def function_coverage_points(d):
